@@ -195,6 +195,19 @@ Proof.
   unfold tcdf. rewrite H1, H2, H3, H4, H5, H6. reflexivity.
 Qed.
 
+(** the two forms of the positive branch (repair 7450c97): the complementary
+    incomplete beta for x*x < V, the original one otherwise *)
+Theorem tcdf_pos_branches betainc v x :
+  (b64_lt (b64_mul x x) v = true ->
+   tcdf_pos betainc v x =
+   res_map (fun i => b64_add k_half (b64_mul k_half i))
+           (betainc (b64_div (b64_mul x x) (b64_add v (b64_mul x x))) k_half (b64_div v k_two))) /\
+  (b64_lt (b64_mul x x) v = false ->
+   tcdf_pos betainc v x =
+   res_map (fun i => b64_sub b64_one (b64_mul k_half i))
+           (betainc (b64_div v (b64_add v (b64_mul x x))) (b64_div v k_two) k_half)).
+Proof. unfold tcdf_pos. cbv zeta. split; intros ->; reflexivity. Qed.
+
 (** F(0) = 1/2 exactly, NaN in gives NaN out *)
 Theorem tcdf_zero_nan betainc v :
   tcdf betainc v b64_zero = Val k_half /\ tcdf betainc v (S754_zero true) = Val k_half /\
